@@ -128,6 +128,9 @@ def _pipeline(m, rot, li, fw, sites8, labels, cubic, dict_radius=False, site_sca
     from pymatgen.core import Lattice
     sites = Structure(lattice=Lattice(np.array(lat.matrix) * site_scale), species=['Li'] * len(sites8), coords=np.array(sites8, dtype=float) / 8, labels=labels)
     out = {}
+    # the automatically chosen radius (a large vibration amplitude makes the spheres overlap, so it is set from the closest pair of sites)
+    from gemdat.transitions import _compute_site_radius
+    out['auto_radius'] = float(_compute_site_radius(trajectory=traj, sites=sites, vibration_amplitude=2.0))
     try:
         # the same radius given per label exercises the per-label search (group-local -> global site indices) under site permutations
         tr = traj.transitions_between_sites(sites, 'Li', site_radius={lab: 0.9 for lab in sorted(set(labels))} if dict_radius else 0.9)
@@ -305,6 +308,8 @@ def oracle(case, out):
             jm = _relabel_sites(jm, inv_s, (1, 2))
             if mat is not None:
                 mat = mat[np.ix_(ps, ps)]
+        if 'auto_radius' in b and 'auto_radius' in o:
+            cmp(kind, 'auto_radius', b['auto_radius'], o['auto_radius'], 1e-9)
         cmp(kind, 'states', st.tolist(), o.get('states'))
         cmp(kind, 'events', ev, o.get('events'))
         cmp(kind, 'jumps', jm, o.get('jumps'))
